@@ -34,7 +34,7 @@ func nilGuard(ds *Describer, v ssa.Value, rel string) GuardSpec {
 		} else {
 			return -1
 		}
-		if o.Val != v && !(pure && o.String() == dstr) {
+		if o.Val != v && !(pure && o.String() == dstr) && !sameElement(o, d) {
 			return -1
 		}
 		for s := 0; s < 2; s++ {
@@ -308,4 +308,18 @@ func UsesAfterFailedCall(ds *Describer, fn *ssa.Function) []FailedUse {
 		}
 	})
 	return out
+}
+
+// sameElement: two descriptions of X[i] with the very same index value and the same (call-free) collection.
+func sameElement(a, b *VD) bool {
+	if a == nil || b == nil || a.Kind != "index" || b.Kind != "index" || len(a.Args) != 2 || len(b.Args) != 2 {
+		return false
+	}
+	if a.Args[1].Val == nil || a.Args[1].Val != b.Args[1].Val {
+		return false
+	}
+	if a.Args[0].Any(func(x *VD) bool { return x.Kind == "call" || x.Kind == "unknown" }) {
+		return false
+	}
+	return a.Args[0].String() == b.Args[0].String()
 }
